@@ -39,7 +39,7 @@ Definition f_repeat (fixed : bool) (args : list arg) : result bytes :=
         match atoi (a_val n) with
         | None => Ok ErrorNum
         | Some count =>
-            if fixed && ((count <? 0) || ((0 <? blen (a_val c)) && (repeat_cap / blen (a_val c) <? count)))
+            if fixed && ((count <? 0) || (repeat_cap <? count) || (repeat_cap <? blen (a_val c) * count))
             then Ok ErrorValue
             else go_repeat (a_val c) count
         end
